@@ -7,7 +7,11 @@ correspondence : the *checked-execution* (`Ck`) Lean models of 24 kernels (gauss
                  breadth_first_search, maximal_independent_set_serial) and, through the `ext_c17_*` ops of Driver/ExtE7.lean, of 11 more
                  (bsr_gauss_seidel, bsr_jacobi, block_jacobi, block_gauss_seidel with `gemm`; rs_direct/classical_interpolation_pass2,
                  remove_strong_FF_connections; truncate_rows_csr with its recursive quicksort, filter_matrix_rows;
-                 incomplete_mat_mult_csr) are run on exact dyadic inputs (the two interpolation passes on IEEE doubles, bit for bit); their `.val` must
+                 incomplete_mat_mult_csr) and, through the `ext_c17r3_*` ops of Driver/ExtE19.lean, of 16 more (bsr_jacobi_indexed,
+                 block_jacobi_indexed, extract_subblocks, overlapping_schwarz_csr with `gemm` in accumulate mode; rs_cf_splitting_pass2, cr_helper;
+                 approx_ideal_restriction_pass1; satisfy_constraints_helper, calc_BtB, incomplete_mat_mult_bsr with the two remaining `gemm` modes;
+                 apply_householders, householder_hornerscheme, apply_givens; floyd_warshall, connected_components, most_interior_nodes)
+                 are run on exact dyadic inputs (the two interpolation passes on IEEE doubles, bit for bit); their `.val` must
                  equal the output of the rebuilt kernel exactly and their `ok` flag must be true (the flag is what the
                  safety theorems of Props/C17.lean are about); malformed controls must clear the flag.  The proof-side
                  models of the termination theorems (bfs/cc/colouring/parallel MIS/Bellman-Ford, RS splitting) are
@@ -52,23 +56,29 @@ META = {
             '(kernel, dtype signature, argument bytes)',
     'search_only': ['no undefined integer / shift / pointer operation: UBSan + _GLIBCXX_ASSERTIONS on the rebuilt kernels (not modelled in Lean)',
                     'releases what it allocates: live-heap-bytes delta around every traced call (ASan allocator statistics)',
-                    'bounds safety of the 30 kernels without a Ck model (the indexed BSR/block relaxation kernels, Schwarz, RS splitting as a whole and its second pass, CLJP, '
-                    'cr_helper, AIR pass 1/2, pairwise aggregation, '
-                    'fit_candidates, satisfy_constraints, calc_BtB, incomplete_mat_mult_bsr, evolution_strength_helper, pinv_array, Krylov helpers, '
-                    'Lloyd/Floyd-Warshall graph kernels, parallel/k MIS and the colourings, connected_components): ASan on generated inputs',
+                    'bounds safety of the 14 kernels without a Ck model (cljp_naive_splitting, approx_ideal_restriction_pass2 and its block version, pairwise_aggregation, '
+                    'fit_candidates, evolution_strength_helper, pinv_array, '
+                    'the Lloyd graph kernels bellman_ford_balanced / center_nodes, parallel and k-parallel MIS, '
+                    'the three colourings): ASan on generated inputs',
                     'termination of the kernels with data-dependent loops other than the five with a *_total theorem: CPU-time limit per call',
                     'reads of uninitialised work memory: only through ASan malloc_fill (0xbe) turning garbage indices into wild accesses, and output poisoning',
                     'outputs fully defined: poison patterns in output buffers (contract table CONTRACT in this file)'],
-    'partial': ['rs_cf_splitting: rs_incr/decr/step_bounds give the index bounds of every bucket move from the invariants BInv/VInv; '
-                'the preservation of the invariants by the whole loop is proved for the first pass model (C13), the checked model of the whole kernel is not written',
+    'partial': ['rs_cf_splitting: the whole-kernel theorem rs_cf_splitting_safe (checked model RS.runCk, op ext_rs_whole: all initialisation loops, main loop, '
+                'bucket moves, clean-up; in range, nothing negative, main loop within n iterations, value = RS.run) is for `influence` = 0, which is what RS() passes '
+                'unless the caller supplies a vector; a non-zero influence vector is search-only',
                 'termination theorems (bfs/cc/coloring/mis_parallel/bellman_ford_total) are about the proof-side models (run by the driver via p_* ops), '
-                'not about Ck transcriptions'],
+                'not about Ck transcriptions (connected_components additionally has the Ck theorem connected_components_safe, which includes termination)'],
     'assumptions': ['admissible sweep = `stop` is reached from `start` in k steps of `step`, all visited rows inside 0..n-1 (Ck.Adm); for block kernels rows are block rows; '
                     'jacobi_ne (loops `i < stop`) is called with start >= 0, stop <= n, step > 0 only',
                     'inputs the Python callers never construct (S with diagonal for RS/CLJP, unsorted subdomains for Schwarz) are not generated',
                     'interpolation pass 2 (direct, classical): `Pp` is the output of the matching first pass on the same S / splitting (PpOK, proved for the pass-1 model: '
                     'interpolation_pass1_establishes_PpOK) and Pj, Px hold at least Pp[n] entries; truncate_rows_csr: k >= 0; filter_matrix_rows with lump: no norm is below theta*0 '
                     '(hypothesis on the abstract scalar operations, true for IEEE doubles and exact arithmetic); BSR kernels: Ax holds blocksize^2 values per stored block',
+                    'round-3 models: index lists of the indexed block kernels name block rows; Schwarz subdomains are lists of rows (any order, repetitions allowed) and Tx holds '
+                    '|subdomain d|^2 values at Tp[d] (WFsub); most_interior_nodes: entries of m are -1 or cluster numbers below |c|, entries of c are nodes; floyd_warshall: L maps the members of the cluster to 0..N-1 (WFfw), D is pre-filled with a large finite value in the correspondence inputs; calc_BtB: BsqCols >= NullDim(NullDim+1)/2; BSR operands of satisfy_constraints / incomplete_mat_mult_bsr hold '
+                    'rows*cols values per stored block; cr_helper: indices has n+1 entries with indices[0] <= n nodes listed behind it, and the abstract scalars satisfy CrOrd '
+                    '(0 tests as zero, a > 0 implies a != 0, a > m > 0 implies a > 0: true for IEEE doubles and exact arithmetic); the correspondence inputs of cr_helper keep '
+                    'inf_norm > 0 (the kernel divides by it; 0/0 is NaN in C and 0 in the exact model)',
                     'scalar arithmetic is abstract in the theorems; overflow of 32-bit index arithmetic is left to UBSan on sizes n <= 40'],
     'trusted_extra': ['g++ AddressSanitizer/UBSan runtime and libstdc++ assertions (the instrumented build is the oracle of the search)',
                       'harness/props/c17.py CONTRACT table: which output regions each kernel must define'],
@@ -1792,6 +1802,189 @@ def ext_model_items(rng, amg_core, add, n, ip, ix, dx):
     add(f'ext_c17_block_gauss_seidel {bh} {enc_rats(b)} {enc_rats(dinv)} {enc_rats(x0)} {sw}', enc_rats(x) + ';ok', 'block_gauss_seidel', bnt)
 
 
+def ext25_model_items(rng, amg_core, add, n, ip, ix):
+    """extension E25: the checked model of the WHOLE rs_cf_splitting (Model/ExtRsCk.lean, driver op `ext_rs_whole`, theorem
+    rs_cf_splitting_safe) against the rebuilt kernel: any structurally valid S (diagonal or not, unsorted, duplicates, nonsymmetric),
+    T = S^T, sometimes an unrelated valid T (the theorem does not need T = S^T), sizes beyond the other model cases"""
+    from common import enc_ints
+    cases = [(n, ip, ix)]
+    for _ in range(3):
+        m = int(rng.choice([n, int(rng.integers(1, 13)), int(rng.integers(8, 33))], p=[.3, .5, .2]))
+        gp, gj, _, _ = rand_pattern(rng, m, explicit_zero=False)
+        cases.append((m, gp, gj))
+    for (k, sp, sj) in cases:
+        sp, sj = np.asarray(sp, dtype=np.int32), np.asarray(sj, dtype=np.int32)
+        if rng.random() < 0.25:
+            tp, tj, _, _ = rand_pattern(rng, k, explicit_zero=False)
+            tp, tj = np.asarray(tp, dtype=np.int32), np.asarray(tj, dtype=np.int32)
+            what = 'rs_cf_splitting (whole kernel, unrelated T)'
+        else:
+            tp, tj = transpose_pattern(k, sp, sj)
+            what = 'rs_cf_splitting (whole kernel)'
+        spl = np.full(k, -7, dtype=np.int32)
+        amg_core.rs_cf_splitting(k, sp, sj, tp, tj, np.zeros(k, dtype=np.int32), spl)
+        add(f'ext_rs_whole {k} {enc_ints(sp)} {enc_ints(sj)} {enc_ints(tp)} {enc_ints(tj)}', enc_ints(spl) + ';ok', what, len(sj) > 0 and len(tj) > 0)
+
+
+def ext3_model_items(rng, amg_core, add, n, ip, ix, dx):
+    """extension E19: the checked models of Model/ExtC17CkR3*.lean (driver ops `ext_c17r3_<kernel>`) against the rebuilt kernels"""
+    from common import enc_ints, enc_rats, enc_rat
+    # relaxation.h: indexed BSR / block Jacobi (index lists with repetitions, empty lists)
+    nb, bs = int(rng.integers(1, 6)), int(rng.choice([1, 2, 2, 3]))
+    gp, gj, _, _ = _exact_csr(rng, nb)
+    gx = bsr_exact(rng, gp, gj, bs)
+    bh = f'{bs} {nb} {enc_ints(gp)} {enc_ints(gj)} {enc_rats(gx)}'
+    x0, b = rand_vec(rng, nb * bs), rand_vec(rng, nb * bs)
+    om = float(rng.choice([0.5, 1.0, 1.5]))
+    idx = rng.integers(0, nb, size=int(rng.integers(0, nb + 2))).astype(np.int32)
+    bnt = len(gj) > 0 and len(idx) > 0
+    x = x0.copy()
+    amg_core.bsr_jacobi_indexed(gp, gj, gx, x, b, idx, bs, np.array([om]))
+    add(f'ext_c17r3_bsr_jacobi_indexed {enc_rat(om)} {bh} {enc_rats(b)} {enc_ints(idx)} {enc_rats(x0)}', enc_rats(x) + ';ok', 'bsr_jacobi_indexed', bnt)
+    dinv = rng.integers(-2, 3, size=nb * bs * bs).astype(np.float64) * 0.5
+    x = x0.copy()
+    amg_core.block_jacobi_indexed(gp, gj, gx, x, b, dinv, idx, np.array([om]), bs)
+    add(f'ext_c17r3_block_jacobi_indexed {enc_rat(om)} {bh} {enc_rats(b)} {enc_rats(dinv)} {enc_ints(idx)} {enc_rats(x0)}', enc_rats(x) + ';ok',
+        'block_jacobi_indexed', bnt)
+    # ruge_stuben.h: second pass of the RS splitting on any pattern (with or without diagonal) and any 0/1 splitting
+    split0 = rng.integers(0, 2, size=n).astype(np.int32)
+    split = split0.copy()
+    amg_core.rs_cf_splitting_pass2(n, ip, ix, split)
+    add(f'ext_c17r3_rs_cf_splitting_pass2 {n} {enc_ints(ip)} {enc_ints(ix)} {enc_ints(split0)}', enc_ints(split) + ';ok', 'rs_cf_splitting_pass2', len(ix) > 0)
+    # air.h: row pointer of R, distance 1 and 2 (and a distance the kernel only complains about)
+    cpts = np.flatnonzero(split0 == 1).astype(np.int32)
+    if rng.random() < 0.3:
+        cpts = rng.integers(0, n, size=int(rng.integers(0, n + 2))).astype(np.int32)       # any node list
+    dist = int(rng.choice([1, 2, 2]))
+    rp = np.full(len(cpts) + 1, -7, dtype=np.int32)
+    amg_core.approx_ideal_restriction_pass1(rp, ip, ix, cpts, split0, dist)
+    add(f'ext_c17r3_approx_ideal_restriction_pass1 {dist} {enc_ints(np.full(len(cpts) + 1, -7))} {enc_ints(ip)} {enc_ints(ix)} {enc_ints(cpts)} {enc_ints(split0)}',
+        enc_ints(rp) + ';ok', 'approx_ideal_restriction_pass1', len(ix) > 0 and len(cpts) > 0)
+    # relaxation.h: Schwarz kernels; subdomains = sorted unique node lists (what the Python callers build), sometimes empty,
+    # sometimes unsorted with repetitions (longer than nrows: the work arrays are sized by the largest subdomain)
+    nsd = int(rng.integers(1, 5))
+    doms = []
+    for d in range(nsd):
+        u = rng.random()
+        if u < 0.15:
+            doms.append(np.zeros(0, dtype=np.int32))
+        elif u < 0.8:
+            doms.append(np.flatnonzero(rng.random(n) < 0.6).astype(np.int32))
+        else:
+            doms.append(rng.integers(0, n, size=int(rng.integers(1, n + 3))).astype(np.int32))
+    Sp = np.concatenate([[0], np.cumsum([len(d) for d in doms])]).astype(np.int32)
+    Sj = (np.concatenate(doms) if len(doms) else np.zeros(0)).astype(np.int32)
+    Tp = np.concatenate([[0], np.cumsum([len(d) ** 2 for d in doms])]).astype(np.int32)
+    hdr = f'{n} {enc_ints(ip)} {enc_ints(ix)} {enc_rats(dx)}'
+    T0 = np.full(int(Tp[-1]), -7.0)
+    Tx = T0.copy()
+    amg_core.extract_subblocks(ip, ix, dx, Tx, Tp, Sj, Sp, nsd, n)
+    add(f'ext_c17r3_extract_subblocks {hdr} {enc_rats(T0)} {enc_ints(Tp)} {enc_ints(Sj)} {enc_ints(Sp)} {nsd}', enc_rats(Tx) + ';ok', 'extract_subblocks',
+        len(ix) > 0 and len(Sj) > 0)
+    Tinv = rng.integers(-2, 3, size=int(Tp[-1])).astype(np.float64) * 0.5
+    x0, b = rand_vec(rng, n), rand_vec(rng, n)
+    s0, s1, s2 = rand_sweep(rng, nsd)
+    x = x0.copy()
+    amg_core.overlapping_schwarz_csr(ip, ix, dx, x, b, Tinv, Tp, Sj, Sp, nsd, n, s0, s1, s2)
+    add(f'ext_c17r3_overlapping_schwarz_csr {hdr} {enc_rats(b)} {enc_rats(Tinv)} {enc_ints(Tp)} {enc_ints(Sj)} {enc_ints(Sp)} {nsd} {n} {enc_rats(x0)} {s0} {s1} {s2}',
+        enc_rats(x) + ';ok', 'overlapping_schwarz_csr', len(ix) > 0 and len(Sj) > 0)
+    # smoothed_aggregation.h: dense-block helpers on BSR patterns with non-square blocks
+    rpb, cpb, nd = int(rng.integers(1, 4)), int(rng.integers(1, 4)), int(rng.integers(1, 4))
+    nbr, nbc = int(rng.integers(1, 5)), int(rng.integers(1, 5))
+    sp, sj, _, _ = _exact_csr(rng, nbr, m=nbc)
+    ri = lambda k: rng.integers(-2, 3, size=k).astype(np.float64)
+    sx0 = ri(len(sj) * rpb * cpb)
+    bt, ub, btbinv = ri(nbc * cpb * nd), ri(nbr * rpb * nd), ri(nbr * nd * nd) * 0.5
+    sx = sx0.copy()
+    amg_core.satisfy_constraints_helper(rpb, cpb, nbr, nd, bt, ub, btbinv, sp, sj, sx)
+    add(f'ext_c17r3_satisfy_constraints_helper {rpb} {cpb} {nd} {enc_rats(bt)} {enc_rats(ub)} {enc_rats(btbinv)} {nbr} {enc_ints(sp)} {enc_ints(sj)} {enc_rats(sx0)}',
+        enc_rats(sx) + ';ok', 'satisfy_constraints_helper', len(sj) > 0)
+    bsqc = nd * (nd + 1) // 2
+    bsq = ri(nbc * cpb * bsqc)
+    btb0 = np.full(nbr * nd * nd, -7.0)
+    btb = btb0.copy()
+    amg_core.calc_BtB(nd, nbr, cpb, bsq, bsqc, btb, sp, sj)
+    add(f'ext_c17r3_calc_BtB {nd} {nbr} {cpb} {enc_rats(bsq)} {bsqc} {enc_rats(btb0)} {enc_ints(sp)} {enc_ints(sj)}', enc_rats(btb) + ';ok', 'calc_BtB', len(sj) > 0)
+    # S (nbr x nbc blocks of rpb x cpb) += A (nbr x kb blocks of rpb x nd) * B (kb x nbc blocks of nd x cpb) on the pattern of S; Sx need not start at zero
+    kb = int(rng.integers(1, 5))
+    if rng.random() < 0.25:
+        rpb = cpb = nd = 1                                     # the scalar branch
+    ap, aj, _, _ = _exact_csr(rng, nbr, m=kb)
+    bp, bj, _, _ = _exact_csr(rng, kb, m=nbc)
+    ax, bx, sx0 = ri(len(aj) * rpb * nd), ri(len(bj) * nd * cpb), ri(len(sj) * rpb * cpb)
+    sx = sx0.copy()
+    amg_core.incomplete_mat_mult_bsr(ap, aj, ax, bp, bj, bx, sp, sj, sx, nbr, nbc, rpb, nd, cpb)
+    add(f'ext_c17r3_incomplete_mat_mult_bsr {nbr} {enc_ints(ap)} {enc_ints(aj)} {enc_rats(ax)} {kb} {enc_ints(bp)} {enc_ints(bj)} {enc_rats(bx)} '
+        f'{nbr} {enc_ints(sp)} {enc_ints(sj)} {enc_rats(sx0)} {nbc} {rpb} {nd} {cpb}', enc_rats(sx) + ';ok', 'incomplete_mat_mult_bsr', len(sj) > 0 and len(aj) > 0 and len(bj) > 0)
+    # ruge_stuben.h: cr_helper; any pattern (diagonal present or not), any 0/1 splitting with the matching index list, target B = +-2^k and
+    # e = B * (0 or +-2^j) so that e/B, the candidate measure e/inf_norm and the weights are exact; at least one non-zero e among the F-points
+    spl0 = rng.integers(0, 2, size=n).astype(np.int32) if rng.random() < 0.6 else np.zeros(n, dtype=np.int32)
+    fpts, cpts = np.flatnonzero(spl0 == 0), np.flatnonzero(spl0 != 0)
+    ind0 = np.concatenate([[len(fpts)], fpts, cpts[::-1]]).astype(np.int32)
+    Bv = np.ldexp(rng.choice([-1.0, 1.0], size=n), rng.integers(-2, 3, size=n))
+    ev = Bv * np.where(rng.random(n) < 0.3, 0.0, np.ldexp(rng.choice([-1.0, 1.0], size=n), rng.integers(-3, 2, size=n)))
+    if len(fpts) and not np.any(ev[fpts]):
+        ev[fpts[0]] = Bv[fpts[0]]
+    g0 = rng.integers(-1, 2, size=n).astype(np.float64)
+    th = float(rng.choice([0.0, 0.125, 0.25, 0.5, 1.0]))
+    e1, ind1, spl1, g1 = ev.copy(), ind0.copy(), spl0.copy(), g0.copy()
+    amg_core.cr_helper(ip, ix, Bv, e1, ind1, spl1, g1, th)
+    add(f'ext_c17r3_cr_helper {enc_ints(ip)} {enc_ints(ix)} {enc_rats(Bv)} {enc_rats(ev)} {enc_ints(ind0)} {enc_ints(spl0)} {enc_rats(g0)} {enc_rat(th)}',
+        f'{enc_rats(e1)};{enc_ints(ind1)};{enc_ints(spl1)};{enc_rats(g1)};ok', 'cr_helper', len(ix) > 0 and len(fpts) > 0)
+    # krylov.h: Householder / Givens helpers on small integer data (exact); W has `rows` reflectors of length nk
+    nk, rows = int(rng.integers(1, 6)), int(rng.integers(1, 5))
+    ri = lambda k: rng.integers(-2, 3, size=k).astype(np.float64)
+    W, z0, yv = ri(rows * nk), ri(nk), ri(max(nk, rows))
+    s0, s1, s2 = rand_sweep(rng, rows)
+    z = z0.copy()
+    amg_core.apply_householders(z, W, nk, s0, s1, s2)
+    add(f'ext_c17r3_apply_householders {enc_rats(W)} {nk} {s0} {s1} {s2} {enc_rats(z0)}', enc_rats(z) + ';ok', 'apply_householders')
+    s0, s1, s2 = rand_sweep(rng, min(rows, nk))
+    z = z0.copy()
+    amg_core.householder_hornerscheme(z, W, yv, nk, s0, s1, s2)
+    add(f'ext_c17r3_householder_hornerscheme {enc_rats(W)} {enc_rats(yv)} {nk} {s0} {s1} {s2} {enc_rats(z0)}', enc_rats(z) + ';ok', 'householder_hornerscheme')
+    nrot = int(rng.integers(0, 5))
+    Q, xg0 = ri(4 * nrot), ri(nrot + 1 + int(rng.integers(0, 2)))
+    xg = xg0.copy()
+    amg_core.apply_givens(Q, xg, len(xg), nrot)
+    add(f'ext_c17r3_apply_givens {enc_rats(Q)} {nrot} {enc_rats(xg0)}', enc_rats(xg) + ';ok', 'apply_givens', nrot > 0)
+    # graph.h: floyd_warshall on cluster `a` of a random clustering (L = local index inside the own cluster), non-negative integer weights,
+    # D pre-filled with a large finite value (the exact model has no infinity)
+    ncl = int(rng.integers(1, 4))
+    mcl = rng.integers(0, ncl, size=n).astype(np.int32)
+    acl = int(rng.integers(0, ncl))
+    Cl = np.flatnonzero(mcl == acl).astype(np.int32)
+    if rng.random() < 0.5:
+        Cl = rng.permutation(Cl).astype(np.int32)
+    Ll = np.zeros(n, dtype=np.int32)
+    for a_ in range(ncl):
+        mem = np.flatnonzero(mcl == a_) if a_ != acl else Cl
+        Ll[mem] = np.arange(len(mem))
+    Nl = len(Cl)
+    wx = np.abs(dx) + 1.0
+    D0, P0 = np.full(Nl * Nl, 1000.0), np.full(Nl * Nl, -1, dtype=np.int32)
+    D1, P1 = D0.copy(), P0.copy()
+    amg_core.floyd_warshall(n, ip, ix, wx, D1, P1, Cl, Ll, mcl, acl, Nl)
+    add(f'ext_c17r3_floyd_warshall {n} {enc_ints(ip)} {enc_ints(ix)} {enc_rats(wx)} {enc_ints(Cl)} {enc_ints(Ll)} {enc_ints(mcl)} {acl} {Nl} {enc_rats(D0)} {enc_ints(P0)}',
+        f'{enc_rats(D1)};{enc_ints(P1)};ok', 'floyd_warshall', len(ix) > 0 and Nl > 1)
+    # graph.h: connected_components on any pattern (symmetric or not, with or without diagonal); value and returned count
+    cc = np.full(n, -7, dtype=np.int32)
+    ncomp = amg_core.connected_components(n, ip, ix, cc)
+    add(f'ext_c17r3_connected_components {n} {enc_ints(ip)} {enc_ints(ix)} {enc_ints(np.full(n, -7))}', f'{enc_ints(cc)};{int(ncomp)};ok', 'connected_components', len(ix) > 0)
+    # graph.h: most_interior_nodes (boundary marking, Bellman-Ford from the boundary, new centres); clusters with unassigned nodes (-1),
+    # positive integer weights, `inf` distances encoded as in c17_bf
+    nc = int(rng.integers(1, 4))
+    mcl = rng.integers(-1 if rng.random() < 0.4 else 0, nc, size=n).astype(np.int32)
+    cen0 = rng.integers(0, n, size=nc).astype(np.int32)
+    wpos = np.abs(dx) + 1.0
+    d1, p0 = rand_vec(rng, n), rng.integers(-1, n, size=n).astype(np.int32)
+    cen1, dd1, m1, p1 = cen0.copy(), d1.copy(), mcl.copy(), p0.copy()
+    chg = amg_core.most_interior_nodes(n, ip, ix, wpos, cen1, dd1, m1, p1)
+    encd = lambda v: ','.join('inf' if not np.isfinite(t_) else enc_rat(t_) for t_ in v) if len(v) else '-'
+    add(f'ext_c17r3_most_interior_nodes {n} {enc_ints(ip)} {enc_ints(ix)} {enc_rats(wpos)} {enc_ints(cen0)} {enc_rats(d1)} {enc_ints(mcl)} {enc_ints(p0)}',
+        f'{enc_ints(cen1)};{int(bool(chg))};{encd(dd1)};{enc_ints(m1)};{enc_ints(p1)};ok', 'most_interior_nodes', len(ix) > 0)
+
+
 def model_items(seed, ncases, inflight):
     """(runs in a child process) correspondence requests for the Lean driver with the outputs of the real kernels"""
     from pyamg import amg_core as _core
@@ -1799,6 +1992,8 @@ def model_items(seed, ncases, inflight):
     amg_core = GuardedCore(_core, inflight)
     rng = np.random.default_rng([seed, 1717])
     rng_ext = np.random.default_rng([seed, 1717, 7])      # own stream: the first 25 models keep their inputs
+    rng_ext3 = np.random.default_rng([seed, 1717, 19])
+    rng_ext25 = np.random.default_rng([seed, 1717, 25])
     items = []          # (line, expected, what, nontrivial)
     feats_all = collections.Counter()
 
@@ -1939,6 +2134,8 @@ def model_items(seed, ncases, inflight):
         amg_core.maximal_independent_set_serial(n, ip, ix, -1, 1, 0, xm_)
         add(f'c17_mis {n} {enc_ints(ip)} {enc_ints(ix)} -1 1 0 {enc_ints(np.full(n, -1))}', enc_ints(xm_) + ';ok', 'maximal_independent_set_serial', nt)
         ext_model_items(rng_ext, amg_core, add, n, ip, ix, dx)
+        ext3_model_items(rng_ext3, amg_core, add, n, ip, ix, dx)
+        ext25_model_items(rng_ext25, amg_core, add, n, ip, ix)
         # proof-side models of the termination theorems + RS model (existing ops; symmetric graphs, no self loops for RS)
         gp, gj, gx, _ = _exact_csr(rng, n, sym=True, diag='none', unsorted=False)
         gh = f'{n} {enc_ints(gp)} {enc_ints(gj)}'
@@ -2039,6 +2236,32 @@ def part_model(ctx, ncases):
         ('ext_c17_rs_direct_interpolation_pass2 3 0,3,4,5 0,1,2,1,2 0,0,0,0,0 0,2,2,2 1,2 0,0 0,1,1 1,3,4,5 -7,-7,-7,-7,-7 0,0,0,0,0', ';fault'),  # Pp[0] = 1: slot 0 is never written, the renumbering reads map[-7]
         ('ext_c17_rs_classical_interpolation_pass2 0 0 3 0,3,4,5 0,1,2,1,2 0,0,0,0,0 0,2,2,2 1,2 0,0 0,1,1 0,2,3,4 -7,-7,-7,-7 0,0,0', ';fault'),   # Px one short
         ('ext_c17_rs_classical_interpolation_pass2 1 0 3 0,3,4,5 0,1,2,1,2 0,0,0,0,0 0,2,2,2 1,7 0,0 0,1,1 0,2,3,4 -7,-7,-7,-7 0,0,0,0', ';fault'),  # Sj = 7
+        # extension E25: the whole rs_cf_splitting
+        ('ext_rs_whole 2 0,1,2 1,0 0,1,2 1,5', ';fault'),                   # Tj = 5: splitting[5]
+        ('ext_rs_whole 2 0,1,2 1,7 0,1,2 1,0', ';fault'),                   # Sj = 7 (met in the lambda-decrement loop)
+        ('ext_rs_whole 2 0,1,2 1,0 0,2,1 1,0', ';fault'),                   # Tp decreasing: negative lambda indexes interval_count
+        ('ext_rs_whole 2 0,1,2 1,0 0,1 0', ';fault'),                       # Tp has n entries instead of n+1
+        ('ext_rs_whole 2 0,1,2 1,-1 0,1,2 1,0', 'rejected'),                # negative entries are not representable in the model: rejected, not defaulted
+        # extension E19 (round 3)
+        ('ext_c17r3_bsr_jacobi_indexed 1 2 1 0,1 0 1,0,0,1 1,1 1 0,0', ';fault'),                         # indices names block row 1 of a matrix with one block row
+        ('ext_c17r3_block_jacobi_indexed 1 2 1 0,1 0 1,0,0,1 1,1 1,0,0 0 0,0', ';fault'),                 # Tx one value short of a 2x2 block
+        ('ext_c17r3_rs_cf_splitting_pass2 2 0,1,2 5,0 0,0', ';fault'),                                    # column index 5: splitting[5]
+        ('ext_c17r3_approx_ideal_restriction_pass1 2 -7 0,1,2 1,0 0 0,0', ';fault'),                      # Rp has |Cpts| entries instead of |Cpts|+1
+        ('ext_c17r3_extract_subblocks 2 0,2,4 0,1,0,1 4,-1,-1,4 7,7,7,7 0,4,5 0,1,1 0,2,3 2', ';fault'),  # Tx one entry shorter than Tp[nsdomains]
+        ('ext_c17r3_overlapping_schwarz_csr 2 0,2,4 0,1,0,1 4,-1,-1,4 1,1 1,0,0,1 0,4 0,1 0,2 1 2 0,0 0 3 2', 'nonterm'),   # stop = 3 is stepped over
+        ('ext_c17r3_overlapping_schwarz_csr 2 0,2,4 0,1,0,1 4,-1,-1,4 1,1 1,0,0,1 0,4 0,1 0,2 1 2 0 0 1 1', ';fault'),     # x has one entry, A has two columns
+        ('ext_c17r3_satisfy_constraints_helper 1 2 1 1,1 1 1 1 0,1 0 1', ';fault'),                       # Sx holds one value for a 1x2 block
+        ('ext_c17r3_calc_BtB 2 1 1 1,1 2 0,0,0,0 0,1 0', ';fault'),                                       # BsqCols = 2 < NullDim(NullDim+1)/2 = 3
+        ('ext_c17r3_incomplete_mat_mult_bsr 1 0,1 0 1 1 0,1 3 1 1 0,1 0 5 1 1 1 1', ';fault'),            # Bj = 3 indexes the pointer array S of n_bcol = 1 entries
+        ('ext_c17r3_cr_helper 0,1,2 0,1 1,1 1,1 3,0,1 0,0 0,0 0', ';fault'),                              # indices[0] = 3 F-points in an index array of n + 1 = 3 entries
+        ('ext_c17r3_apply_householders 1,0,0 2 0 2 1 1,1', ';fault'),                                     # B one entry short of two reflectors of length 2
+        ('ext_c17r3_apply_householders 1,0,0,1 2 0 3 2 1,1', 'nonterm'),                                  # stop = 3 is stepped over
+        ('ext_c17r3_householder_hornerscheme 1,0,0,1 1 2 0 2 1 1,1', ';fault'),                           # y has one entry, i reaches 1
+        ('ext_c17r3_apply_givens 1,0,0,1 1 1', ';fault'),                                                 # one rotation needs x[0], x[1]
+        ('ext_c17r3_apply_givens 1,0,0 1 1,1', ';fault'),                                                 # B one entry short of a rotation
+        ('ext_c17r3_floyd_warshall 2 0,1,2 1,0 1,1 0,1 0,5 0,0 0 2 9,9,9,9 -1,-1,-1,-1', ';fault'),       # L[1] = 5 is not a local index of a cluster of 2
+        ('ext_c17r3_connected_components 2 0,1,2 1,5 -7,-7', ';fault'),                                   # column index 5: components[5]
+        ('ext_c17r3_most_interior_nodes 2 0,1,2 1,0 1,1 0 0,0 0,3 -1,-1', ';fault'),                      # m[1] = 3 indexes c, which has one cluster
     ]
     outs = ctx.lean([c[0] for c in controls], chunks=1)
     for (line, want), o in zip(controls, outs):
